@@ -273,12 +273,12 @@ class AsyncFIXConnection:
             f" {repr(msg.msg_type)}\n\t {msg_raw.decode()}\n"
         )
 
-        self._socket_writer.write(encoded_msg)
-        await self._socket_writer.drain()
-
         self._journaler.persist_msg(
             encoded_msg, self._session, MessageDirection.OUTBOUND
         )
+
+        self._socket_writer.write(encoded_msg)
+        await self._socket_writer.drain()
 
     async def send_test_req(self):
         """Sends TestRequest(35=1) and sets TestReqID for expected response from peer.
